@@ -352,8 +352,7 @@ class FortranBackend(BaseBackend):
         # call parent method
         super().clear()
 
-    @staticmethod
-    def expr_to_str(expr: str, args: tuple):
+    def expr_to_str(self, expr: str, args: tuple):
 
         func = 'cshift('
         if func in expr:
@@ -367,8 +366,10 @@ class FortranBackend(BaseBackend):
             expr = replace(expr, old_expr, new_expr)
 
         # real literals are of default (single precision) kind in Fortran unless they carry a kind/exponent letter:
-        # `0.1` would enter a double precision equation as 0.100000001490116
-        expr = _real_literal.sub(lambda m: f"{m.group(1)}d{m.group(2) or '0'}", expr)
+        # `0.1` would enter a double precision equation as 0.100000001490116 (single precision models keep literals of
+        # default kind, which is the kind of their variables and helper functions)
+        if '64' in str(self._float_precision):
+            expr = _real_literal.sub(lambda m: f"{m.group(1)}d{m.group(2) or '0'}", expr)
 
         return expr
 
